@@ -1890,8 +1890,9 @@ func (r stack) defaultAssertionHandler(x any) (str string) {
 			// Handle NOTs a little differently
 			// when nested and when not using
 			// symbol operators ...
-			ik = foldValue(Xs.positive(cfold), ik)
-			str = ik + ` ` + Xs.String()
+			if str = Xs.String(); len(str) > 0 {
+				str = ik + ` ` + str
+			}
 		} else {
 			str = Xs.String()
 		}
